@@ -251,6 +251,33 @@ theorem healthcheck_runs_until_cancel (evs : List HcEv) (h : HcEv.done ∉ evs) 
     | done => exact absurd (by simp) h
     | tick => exact ih (fun hm => h (by simp [hm]))
 
+/-- **agent_goroutines_exit_after_stop** — once `Agent.Stop` has cancelled the context, each of the
+agent's background loops reaches `exited` within a bounded number of its own steps (6 for
+`reportUsagePeriodically`, 1 for `healthCheck`), without ever being blocked on the way: from every
+state (idle, sending, waiting for a pending message, waiting for the send to complete — with or
+without a tick still queued), for every outcome script of the OpAMP client (accepted, pending and
+never sent, pending then sent, failing) and whichever ready `select` case the runtime picks. -/
+theorem agent_goroutines_exit_after_stop (s : USt) (choices : List Bool) (h : 6 ≤ choices.length) :
+    (urun choices s.stop).loc = .exited ∧ hcStep true .running .done = .exited :=
+  ⟨urun_exits choices s.stop rfl (Nat.le_trans (mu_le _) h), rfl⟩
+
+/-- while nothing cancels it the loop never exits (non-vacuity of the statement above) -/
+theorem usage_loop_runs_until_stop (ch : Bool) (s s' : USt) (hc : s.cancelled = false)
+    (h : ustep ch s = some s') : s'.loc ≠ .exited := by
+  obtain ⟨loc, tick, cancelled, chClosed, cur, last, script, calls⟩ := s
+  simp only at hc; subst hc
+  cases loc <;> simp [ustep] at h
+  all_goals obtain ⟨_, rfl⟩ := h
+  · cases cur <;> cases last <;> simp [sendReport, USt.nextOut, USt.called] <;>
+      (cases script with
+        | nil => simp
+        | cons o r => cases o <;> simp)
+  · simp [retrySend, USt.nextOut, USt.called]
+    cases script with
+    | nil => simp
+    | cons o r => cases o <;> simp
+  · simp
+
 /-- OLD VARIANT ONLY (the loop before commit 4b2120c, `fixed = false`; not the current code):
 with the empty `ctx.Done()` case the loop never exited, whatever it saw — the recorded, now fixed,
 finding `C36:agent-healthcheck-spins-after-cancel`. -/
@@ -274,6 +301,10 @@ example : ((run { tt := 5, sd := 2, mb := 3 } (fun _ => true)
 example : ((step {} (fun _ => true) (run {} (fun _ => true) [.txstop]) (.ev 7 0)).2,
     (step {} (fun _ => true) (run {} (fun _ => true) [.txstop, .ev 7 0]) (.ev 8 0)).2) =
     (Out.enq .panic, Out.enq .blocked) := by decide
+-- the seeded history: report pending, OpAMP server never answers, Stop: the loop still leaves
+example : (urun [true, true, true, true, true, true]
+    ((urun [true] ({ cur := true, script := [.pend false] } : USt).ticked).stop)).loc = .exited := by decide
+example : (urun [true] ({ cur := true, script := [.pend false] } : USt).ticked).loc = .waitPending := by decide
 -- a late span of a dropped trace is discarded, one of a kept trace goes straight to the transmission
 example : (run { tt := 5, sd := 2, mb := 9 } (fun t => t == 1)
     [.span 1 0 false ⟨1, 1, 0, true⟩, .span 1 0 false ⟨2, 2, 0, true⟩, .tick 3, .span 1 0 false ⟨3, 1, 0, false⟩,
